@@ -1182,7 +1182,8 @@ fn sort_strategy(by_row: bool) -> BoxedStrategy<GridCase> {
     // key lines of length 21..64 against a short other dimension (std's unstable sort is an
     // insertion sort -- accidentally stable -- up to 20 elements), plus general small shapes
     let shape = prop_oneof![
-        5 => (21u8..=64, 1u8..=4),
+        5 => (33u8..=96, 1u8..=4),
+        1 => (21u8..=32, 1u8..=4),
         3 => (2u8..=20, 1u8..=8),
         1 => (1u8..=2, 1u8..=3),
     ];
@@ -1213,8 +1214,8 @@ fn sort_execute(k: &GridCase, ctx: &mut Ctx) -> Verdict {
         if out.had_tie && out.had_inversion && across >= 2 {
             ctx.nt();
             ctx.class("tie-and-inversion");
-            if across > 20 {
-                ctx.class("tie-and-inversion-line-longer-than-20");
+            if across > 32 {
+                ctx.class("tie-and-inversion-line-longer-than-32");
             }
         }
         if lay.c != lay.r {
@@ -1229,7 +1230,7 @@ impl Prop for C16 {
     type Case = GridCase;
     const ID: &'static str = "C16";
     fn rule() -> &'static str {
-        "the six sort-by-row variants (closure incl. reversed comparator, key function incl. non-monotone keys, Ord; stable and unstable) on {owned, interior window, Thin, nested}: every key row of length 1..=5 (thorough 6) over a 3-letter alphabet (all tie patterns) x heights {1,3}, every out-of-range row index, plus random key rows of length 21..64 (std's unstable sort is accidentally stable up to 20) and small shapes; cells are (key,id) with unique ids. Oracle (both directions): chosen row ordered, every result column is one original column intact and each original column appears exactly once; stable variants equal the model's stable sort (ties keep left-to-right order); out-of-range row panics; outside of a window unchanged. Non-trivial = >= 1 tie and >= 1 inversion in the key row of an array with >= 2 columns. Distinct = distinct case tuple."
+        "the six sort-by-row variants (closure incl. reversed comparator, key function incl. non-monotone keys, Ord; stable and unstable) on {owned, interior window, Thin, nested}: every key row of length 1..=5 (thorough 6) over a 3-letter alphabet (all tie patterns) x heights {1,3}, every out-of-range row index, plus random key rows of length 21..96 (std's unstable sort is an insertion sort, hence accidentally stable, for short inputs: up to 20 or 32 elements depending on the std version) and small shapes; cells are (key,id) with unique ids. Oracle (both directions): chosen row ordered, every result column is one original column intact and each original column appears exactly once; stable variants equal the model's stable sort (ties keep left-to-right order); out-of-range row panics; outside of a window unchanged. Non-trivial = >= 1 tie and >= 1 inversion in the key row of an array with >= 2 columns. Distinct = distinct case tuple."
     }
     fn bound(t: Tier) -> String {
         format!("all key rows of length 1..={} over {{0,1,2}}, heights {{1,3}}, 6 variants x 3 key functions, receivers owned / window / Thin; all out-of-range rows for shapes (0..=3)^2", if t == Tier::Quick { 5 } else { 6 })
@@ -1247,7 +1248,7 @@ impl Prop for C16 {
         sort_execute(k, ctx)
     }
     fn essential_classes() -> &'static [&'static str] {
-        &["rejected", "tie-and-inversion", "tie-and-inversion-line-longer-than-20", "sort_by_row", "sort_by_row_key", "sort_row_ord", "sort_unstable_by_row", "sort_unstable_by_row_key", "sort_unstable_row_ord", "non-square"]
+        &["rejected", "tie-and-inversion", "tie-and-inversion-line-longer-than-32", "sort_by_row", "sort_by_row_key", "sort_row_ord", "sort_unstable_by_row", "sort_unstable_by_row_key", "sort_unstable_row_ord", "non-square"]
     }
 }
 
@@ -1256,7 +1257,7 @@ impl Prop for C17 {
     type Case = GridCase;
     const ID: &'static str = "C17";
     fn rule() -> &'static str {
-        "the five sort-by-column variants (closure incl. reversed comparator, key function incl. non-monotone keys, Ord; stable and unstable) on {owned, interior window, Thin, nested}: every key column of length 1..=5 (thorough 6) over a 3-letter alphabet x widths {1,3}, every out-of-range column index, plus random key columns of length 21..64 and small non-square shapes; cells are (key,id) with unique ids. Oracle (both directions): chosen column ordered (by the comparison or the key function), every result row is one original row intact and each appears exactly once; stable variants equal the model's stable sort (ties keep top-to-bottom order); out-of-range column panics; outside of a window unchanged. Non-trivial = >= 1 tie and >= 1 inversion in the key column of an array with >= 2 rows. Distinct = distinct case tuple."
+        "the five sort-by-column variants (closure incl. reversed comparator, key function incl. non-monotone keys, Ord; stable and unstable) on {owned, interior window, Thin, nested}: every key column of length 1..=5 (thorough 6) over a 3-letter alphabet x widths {1,3}, every out-of-range column index, plus random key columns of length 21..96 and small non-square shapes; cells are (key,id) with unique ids. Oracle (both directions): chosen column ordered (by the comparison or the key function), every result row is one original row intact and each appears exactly once; stable variants equal the model's stable sort (ties keep top-to-bottom order); out-of-range column panics; outside of a window unchanged. Non-trivial = >= 1 tie and >= 1 inversion in the key column of an array with >= 2 rows. Distinct = distinct case tuple."
     }
     fn bound(t: Tier) -> String {
         format!("all key columns of length 1..={} over {{0,1,2}}, widths {{1,3}}, 5 variants x 3 key functions, receivers owned / window / Thin; all out-of-range columns for shapes (0..=3)^2", if t == Tier::Quick { 5 } else { 6 })
@@ -1274,7 +1275,7 @@ impl Prop for C17 {
         sort_execute(k, ctx)
     }
     fn essential_classes() -> &'static [&'static str] {
-        &["rejected", "tie-and-inversion", "tie-and-inversion-line-longer-than-20", "sort_by_col", "sort_by_col_key", "sort_col_ord", "sort_unstable_by_col", "sort_unstable_by_col_key", "non-square"]
+        &["rejected", "tie-and-inversion", "tie-and-inversion-line-longer-than-32", "sort_by_col", "sort_by_col_key", "sort_col_ord", "sort_unstable_by_col", "sort_unstable_by_col_key", "non-square"]
     }
 }
 
